@@ -48,15 +48,20 @@ EXEMPT_POS = {'_solve_bruteforce._solve_bruteforce': 0}
 
 
 def _resolve_tables(P):
+    # a module-level function that was moved to another module keeps its entry (Program.func finds it by name)
+    for (q, prm) in list(EXEMPT):
+        if q not in P.functions and '.' in q and q.split('.')[0] not in P.classes and P.has_func(q):
+            EXEMPT[(P.func(q).qual, prm)] = EXEMPT[(q, prm)]
     OUT_PARAM_HELPERS.clear()
     for q, i in OUT_PARAM_POS.items():
         if P.has_func(q) and len(P.func(q).all_params) > i:
             OUT_PARAM_HELPERS[q] = P.func(q).all_params[i]
     for q, i in EXEMPT_POS.items():
         if P.has_func(q) and len(P.func(q).all_params) > i:
-            old = [k for k in EXEMPT if k[0] == q]
+            f_ = P.func(q)
+            old = [k for k in EXEMPT if k[0] in (q, f_.qual)]
             for k in old:
-                EXEMPT[(q, P.func(q).all_params[i])] = EXEMPT.pop(k)
+                EXEMPT[(f_.qual, f_.all_params[i])] = EXEMPT[k]
 GETTERS = [('BO', 'mapping', '_mapping'), ('BO', 'reverse_mapping', '_reverse_mapping'),
            ('PUBOMatrix', 'variables', '_variables')]
 
